@@ -7,3 +7,4 @@ package png
 //@   props C01 C02
 //@   entry
 //@   requires r != nil
+//@   loop 0 decreases lim(r) - pos(r)
